@@ -159,17 +159,19 @@ def build_harness(name, cfg, srcs, extra_flags=(), repo=None, sanitize=False):
     li = build(cfg, repo)
     outdir = os.path.join(BUILD, "harness", cfg)
     os.makedirs(outdir, exist_ok=True)
-    exe = os.path.join(outdir, name + ("_san" if sanitize else ""))
+    exe = os.path.join(outdir, name + ("_tsan" if sanitize == "thread" else "_san" if sanitize else ""))
     h = hashlib.sha256(li["hash"].encode())
     hdrs = sorted(glob.glob(os.path.join(VERIF, "harness", "common", "*.hpp")))
     for s in list(srcs) + hdrs:
         h.update(open(s, "rb").read())
-    h.update(" ".join(extra_flags).encode())
+    h.update((" ".join(extra_flags) + str(sanitize)).encode())
     stamp = exe + ".stamp"
     if os.path.exists(exe) and os.path.exists(stamp) and open(stamp).read() == h.hexdigest():
         return exe
     flags = list(CXXFLAGS)
-    if sanitize:
+    if sanitize == "thread":
+        flags += ["-fsanitize=thread"]
+    elif sanitize:
         flags += ["-fsanitize=address,undefined", "-fno-sanitize-recover=all"]
     cmd = [CXX] + flags + li["flags"] + list(extra_flags) + list(srcs) + [li["lib"], "-lpthread", "-o", exe]
     r = subprocess.run(cmd, capture_output=True, text=True)
